@@ -293,7 +293,7 @@ func (r *Result) WriteEvidence(dir string, cmd string) error {
 		"seed":        r.Seed,
 		"level":       level,
 		"coverage":    cov,
-		"assumptions": r.Meta.Assumptions,
+		"assumptions": nonNil(r.Meta.Assumptions),
 		"wall_s":      r.Wall,
 		"violations":  len(r.NewViol),
 	}
@@ -394,4 +394,11 @@ func (c *Ctx) FunctionsSeen() []string {
 	}
 	sort.Strings(out)
 	return out
+}
+
+func nonNil(xs []string) []string {
+	if xs == nil {
+		return []string{}
+	}
+	return xs
 }
